@@ -31,6 +31,8 @@ def upper1(c):
 LOWER = z3.Function("py_lower", StrS, StrS)   # whole-string lower(), axiomatised on use
 UPPER = z3.Function("py_upper", StrS, StrS)
 STRIP = z3.Function("py_strip", StrS, StrS)
+VALIDFMT = z3.Function("py_validfmt", StrS, IntS, BoolS)
+FMTRES = z3.Function("py_format_result", StrS, IntS, StrS)
 FIRSTFIELD = z3.Function("py_firstfield", StrS, StrS)
 LASTPIECE = z3.Function("py_lastpiece", StrS, StrS, StrS)
 WC = z3.Function("spec_write_continue_output", StrS, IntS, StrS, StrS)
@@ -682,7 +684,10 @@ class MethodsMixin(object):
             from contracts.wrapc_capsule import WFMT
             return VStr(WFMT(self.ev(node.args[0], st).e))
 
-        return dict(wfmt=sf_wfmt, same_except=sf_same_except, isnone=sf_isnone, isbool=sf_isbool, firstfield=sf_firstfield, lastpiece=sf_lastpiece, isint=sf_isint, isstr=sf_isstr, asstr=sf_asstr, WC=sf_wc, code=_sf_code(self), all=sf_all, old=sf_old, implies=sf_implies, iff=sf_iff, allws=sf_allws,
+        def sf_validfmt(node, st):
+            return VBool(VALIDFMT(self.ev(node.args[0], st).e, self.ev(node.args[1], st).e))
+
+        return dict(validfmt=sf_validfmt, wfmt=sf_wfmt, same_except=sf_same_except, isnone=sf_isnone, isbool=sf_isbool, firstfield=sf_firstfield, lastpiece=sf_lastpiece, isint=sf_isint, isstr=sf_isstr, asstr=sf_asstr, WC=sf_wc, code=_sf_code(self), all=sf_all, old=sf_old, implies=sf_implies, iff=sf_iff, allws=sf_allws,
                     lstrip=sf_lstrip, rstrip=sf_rstrip)
 
 
